@@ -242,10 +242,13 @@ func (z *ZodXor[T, R]) PrefaultFunc(fn func() T) *ZodXor[T, R] {
 	return z.withInternals(in)
 }
 
-// Meta attaches metadata to this schema.
+// Meta returns a new schema with the given metadata stored in the global
+// registry; the receiver and its registry entry are unchanged.
 func (z *ZodXor[T, R]) Meta(meta core.GlobalMeta) *ZodXor[T, R] {
-	core.GlobalRegistry.Add(z, meta)
-	return z
+	newInternals := z.internals.Clone()
+	clone := z.withInternals(newInternals)
+	core.GlobalRegistry.Add(clone, meta)
+	return clone
 }
 
 // Describe sets a human-readable description for this schema.
